@@ -108,6 +108,11 @@ def operand(e):
     return "(%s)" % s
 
 
+def cond_operand(e):
+    """a condition / scrutinee followed by `{`: `()` there would read as the parameter list of a function"""
+    return "(())" if e[0] == "unit" else operand(e)
+
+
 def _balanced_outer(s):
     d = 0
     for i, c in enumerate(s):
@@ -211,12 +216,12 @@ def src(e):
     if k == "block":
         return body_src(e[1])
     if k == "if":
-        s = "if %s %s" % (operand(e[1]), stm_block(e[2]))
+        s = "if %s %s" % (cond_operand(e[1]), stm_block(e[2]))
         if e[3] is not None:
             s += " else %s" % stm_block(e[3])
         return s
     if k == "ifset":
-        s = "if %s: %s = %s %s" % (e[1], T.src(e[2]), operand(e[3]), stm_block(e[4]))
+        s = "if %s: %s = %s %s" % (e[1], T.src(e[2]), cond_operand(e[3]), stm_block(e[4]))
         if e[5] is not None:
             s += " else %s" % stm_block(e[5])
         return s
@@ -229,17 +234,17 @@ def src(e):
                 arms.append("%s => %s," % (", ".join(operand(c) for c in a[1]), stm_block(a[2])))
             else:
                 arms.append("=> %s," % stm_block(a[1]))
-        return "match %s { %s }" % (operand(e[1]), " ".join(arms))
+        return "match %s { %s }" % (cond_operand(e[1]), " ".join(arms))
     if k == "return":
         return "return" if e[1] is None else "return %s" % src(e[1])
     if k == "loop":
         return "loop %s" % stm_block(e[1])
     if k == "while":
-        return "while %s %s" % (operand(e[1]), stm_block(e[2]))
+        return "while %s %s" % (cond_operand(e[1]), stm_block(e[2]))
     if k == "whileset":
-        return "while %s: %s = %s %s" % (e[1], T.src(e[2]), operand(e[3]), stm_block(e[4]))
+        return "while %s: %s = %s %s" % (e[1], T.src(e[2]), cond_operand(e[3]), stm_block(e[4]))
     if k == "for":
-        return "for %s in %s %s" % (e[1], operand(e[2]), stm_block(e[3]))
+        return "for %s in %s %s" % (e[1], cond_operand(e[2]), stm_block(e[3]))
     if k == "break":
         return "break"
     if k == "continue":
@@ -351,3 +356,121 @@ def as_block(s):
 
 def program_sexp(stmts):
     return "(" + " ".join(sx(s) for s in stmts) + ")"
+
+
+# ---- hoisting: the grammar has control-flow constructs (`if`, `if x: T =`, `match`, blocks, loops) only in statement
+# positions (a line of a block, the right side of `:=`, the operand of `return`, a branch / arm body); an operand of an
+# operator must be an `atom`.  `hoist` moves every control-flow construct found in an operand position into a fresh
+# `qN := ...` declaration in front of the enclosing statement (same environment: all binders introduce blocks).
+CF_KINDS = ("if", "ifset", "match", "block", "loop", "while", "whileset", "for", "return", "break", "continue", "set", "destruct", "fndecl")
+
+
+class _Fresh:
+    def __init__(self, on_set=None):
+        self.n = 0
+        self.on_set = on_set or (lambda x, rhs: rhs)
+
+    def name(self):
+        self.n += 1
+        return "q%d" % self.n
+
+
+def hoist(stmts, fresh=None, on_set=None):
+    """`on_set(x, rhs)` may rewrite the right side of every declaration (used to keep declared names opaque to the folder)"""
+    fresh = fresh or _Fresh(on_set)
+    out = []
+    for s in stmts:
+        pre = []
+        s2 = _stm(s, pre, fresh)
+        out.extend(pre)
+        out.append(s2)
+    return out
+
+
+def _blk(e, fresh):
+    """a branch / arm / loop body: printed as a block"""
+    if e is None:
+        return None
+    if e[0] == "block":
+        return ("block", hoist(e[1], fresh))
+    return ("block", hoist([e], fresh))
+
+
+def _stm(e, pre, fresh):
+    k = e[0]
+    if k == "set":
+        return ("set", e[1], fresh.on_set(e[1], _stm(e[2], pre, fresh)))
+    if k == "destruct":
+        return ("destruct", e[1], _stm(e[2], pre, fresh))
+    if k == "fndecl":
+        return ("fndecl", e[1], e[2], e[3], hoist(e[4], fresh))
+    if k == "block":
+        return ("block", hoist(e[1], fresh))
+    if k == "if":
+        return ("if", _opd(e[1], pre, fresh), _blk(e[2], fresh), _blk(e[3], fresh))
+    if k == "ifset":
+        return ("ifset", e[1], e[2], _opd(e[3], pre, fresh), _blk(e[4], fresh), _blk(e[5], fresh))
+    if k == "match":
+        arms = []
+        for a in e[2]:
+            if a[0] == "ty":
+                arms.append(("ty", a[1], a[2], _blk(a[3], fresh)))
+            elif a[0] == "val":
+                arms.append(("val", [_opd(c, pre, fresh) for c in a[1]], _blk(a[2], fresh)))
+            else:
+                arms.append(("other", _blk(a[1], fresh)))
+        return ("match", _opd(e[1], pre, fresh), arms)
+    if k == "return":
+        return ("return", None if e[1] is None else _stm(e[1], pre, fresh))
+    if k == "loop":
+        return ("loop", _blk(e[1], fresh))
+    if k == "while":
+        return ("while", _opd(e[1], pre, fresh), _blk(e[2], fresh))
+    if k == "whileset":
+        return ("whileset", e[1], e[2], _opd(e[3], pre, fresh), _blk(e[4], fresh))
+    if k == "for":
+        return ("for", e[1], _opd(e[2], pre, fresh), _blk(e[3], fresh))
+    if k in ("break", "continue"):
+        return e
+    return _opd(e, pre, fresh)
+
+
+def _opd(e, pre, fresh):
+    if e is None:
+        return None
+    k = e[0]
+    if k in CF_KINDS:
+        e2 = _stm(e, pre, fresh)
+        x = fresh.name()
+        pre.append(("set", x, fresh.on_set(x, e2)))
+        return ("id", x)
+    o = lambda x: _opd(x, pre, fresh)
+    if k in ("true", "false", "unit", "i", "f", "s", "id"):
+        return e
+    if k in ("array", "tuple"):
+        return (k, [o(x) for x in e[1]])
+    if k == "repeat":
+        return (k, o(e[1]), o(e[2]))
+    if k == "struct":
+        return (k, [(f, o(x)) for f, x in e[1]])
+    if k == "mut":
+        return (k, e[1], o(e[2]))
+    if k == "fn":
+        return (k, e[1], e[2], hoist(e[3], fresh))
+    if k == "mod":
+        return (k, hoist(e[1], fresh))
+    if k in ("pre", "post"):
+        return (k, e[1], o(e[2]))
+    if k in ("bin", "assign"):
+        return (k, e[1], o(e[2]), o(e[3]))
+    if k in ("and", "or", "at"):
+        return (k, o(e[1]), o(e[2]))
+    if k == "slice":
+        return (k, o(e[1]), o(e[2]), o(e[3]), o(e[4]))
+    if k == "call":
+        return (k, o(e[1]), [o(x) for x in e[2]])
+    if k in ("tacc", "facc", "tfilter"):
+        return (k, o(e[1]), e[2])
+    if k == "reduce":
+        return (k, o(e[1]), o(e[2]), o(e[3]))
+    raise ValueError("hoist: %r" % (e,))
